@@ -266,9 +266,11 @@ def particle_variable_rules(prog: Program, rep: Report) -> None:
 def doc_agreement(prog: Program, rep: Report) -> None:
     rule = "R06.7"
     ws = prog.func("warm_start.warm_start")
-    defs = {unparse(n.targets[0]): unparse(n.value) for n in walk_no_nested(ws.node) if isinstance(n, ast.Assign) and isinstance(n.targets[0], ast.Name)}
-    ok = defs.get("pstart") in ("f.variables['particle_count'][:-1].sum()", "np.sum(f.variables['particle_count'][:-1])") and defs.get("pcount") == "f.variables['particle_count'][-1]" and defs.get("pend") in ("pstart + pcount", "pcount + pstart")
-    rep.check(rule, ws.qual, "reader: last record = [sum(count[:-1]) : + count[-1]]", ok, what_bad=f"pstart={defs.get('pstart')} pcount={defs.get('pcount')} pend={defs.get('pend')}: the restart reads other rows than the writer's cumulative-count layout", what_ok="cumulative particle_count", loc=ws.loc())
+    from . import c08
+
+    wf = c08.warm_start_facts(prog)
+    ok = wf["last_record_ok"]
+    rep.check(rule, ws.qual, "reader: last record = [sum(count[:-1]) : + count[-1]]", ok, what_bad=f"pstart={wf['pstart']} pcount={wf['pcount']} pend={wf['pend']}: the restart reads other rows than the writer's cumulative-count layout", what_ok="cumulative particle_count", loc=ws.loc())
     doc = prog.root / "doc" / "source" / "output.rst"
     if not doc.exists():
         rep.add(rule, "doc/source/output.rst", "python snippet", None, "documentation file not present in this tree", "doc/source/output.rst")
